@@ -95,6 +95,32 @@ def gen_ops(rng, cfg, n, weights=None):
     return ops
 
 
+def gen_hot_ops(rng, cfg, n):
+    """skewed trace: one or two hot keys looked up again and again (frequency counters reach and pass their caps, sketch
+    counters saturate, the SIEVE hand passes the same record many times), a stream of cold keys forcing eviction passes"""
+    univ = cfg["univ"]
+    hot = rng.sample(range(univ), rng.choice([1, 1, 2]))
+    ops, nexth, nextv, cold = [], 1, 1, 0
+    for k in hot:
+        ops += [f"ins k={k} v={nextv} w=1 low=0 ph=0 h={nexth}", f"drop h={nexth}"]; nexth += 1; nextv += 1
+    for _ in range(n):
+        r = rng.random()
+        if r < 0.45:
+            k = rng.choice(hot)
+            for _ in range(rng.choice([1, 1, 2, 5, 8])):
+                ops += [f"get k={k} h={nexth}", f"drop h={nexth}"]; nexth += 1
+        elif r < 0.5:
+            k = rng.choice(hot)
+            ops += [f"ins k={k} v={nextv} w=1 low=0 ph=0 h={nexth}", f"drop h={nexth}"]; nexth += 1; nextv += 1
+        else:
+            cold = (cold + 1) % univ
+            while cold in hot:
+                cold = (cold + 1) % univ
+            ops += [f"ins k={cold} v={nextv} w=1 low=0 ph=0 h={nexth}", f"drop h={nexth}"]; nexth += 1; nextv += 1
+    ops.append("dropcache")
+    return ops
+
+
 def script_text(cfg, ops):
     return cfg_line(cfg) + "\n" + "\n".join(ops) + "\n"
 
@@ -454,14 +480,20 @@ def oracle_c18(h):
             if int(out) != want_out:
                 return (n, f"handle {hid}: is_outdated()={out}, a lookup of key {key} "
                            f"{'would' if want_out == 0 else 'would not'} return this entry")
-        # no leak: with no outstanding handles an insert brings the shard within capacity
-        if name == "ins" and not [x for x in hv if x != kv["h"]] and kv["ph"] != "1":
+        # no leak: an insert brings the shard within capacity unless every other resident entry of the shard is pinned by
+        # a lookup whose handle (or a clone of it) is still alive - under LRU only; once the last handle is dropped the
+        # entry is evictable again
+        if name == "ins" and kv["ph"] != "1":
             find = [int(x) for x in d["find"].split(",") if x]
             s = h.shard_of(int(kv["k"]))
             capS = Hist.cap_for(total_cap, h.shards, s)
             us = sum(ver[cur[k]][1] for k in find if h.shard_of(k) == s and k in cur)
             if us > capS and int(kv["w"]) <= capS:
-                return (n, f"no outstanding handles, yet shard {s} stays over capacity after insert ({us} > {capS})")
+                others = [k for k in find if h.shard_of(k) == s and k in cur and k != int(kv["k"])]
+                free = [k for k in others if not (lru and cur[k] in pin)]
+                if free:
+                    return (n, f"shard {s} stays over capacity after insert ({us} > {capS}) although the entries of keys {free} "
+                               f"are not pinned by any live lookup handle (leak)")
     return None
 
 
